@@ -187,37 +187,29 @@ def entryFormsStep (norm : String → String) (c : Ctx) (db : Db) (e : Entry) : 
 def insertForms (db : Db) (norm : String → String) (l : Lexicon) (c : Ctx) : R Db :=
   l.entries.foldlM (entryFormsStep norm c) db
 
-/-- `_insert_pronunciations` and `_insert_tags` -/
+/-- form-like elements of an entry with the `(form id, rank)` pair `FORM_QUERY` is asked for: the lemma
+(rank 0), then each `<Form>` (rank = position + 1; `none` = the -1 used for external forms) -/
+def formLikes (e : Entry) : List (Option String × Option Nat × List Pron × List Tag) :=
+  (match e.lemma with | some lem => [(none, some 0, lem.prons, lem.tags)] | none => []) ++
+  e.forms.zipIdx.map (fun (f, i) => (f.id, if f.external then none else some (i + 1), f.prons, f.tags))
+
+def pronStep (c : Ctx) (e : Entry) (fid : Option String) (rank : Option Nat) (db : Db) (p : Pron) : R Db := do
+  let fr ← need "NOT NULL pronunciations.form_rowid" (formRow db e.id (c.lid e.id) fid rank)
+  let row : RPron := {form := fr, value := p.text, variety := p.variety, notat := p.notat, phonemic := boolOr p.phonemic true, audio := p.audio}
+  return { db with prons := db.prons ++ [row] }
+
+def tagStep (c : Ctx) (e : Entry) (fid : Option String) (rank : Option Nat) (db : Db) (t : Tag) : R Db := do
+  let fr ← need "NOT NULL tags.form_rowid" (formRow db e.id (c.lid e.id) fid rank)
+  let row : RTag := {form := fr, tag := t.text, category := t.category}
+  return { db with tags := db.tags ++ [row] }
+
+/-- `_insert_pronunciations` and `_insert_tags`: pronunciations of all entries first, then tags of
+all entries (two passes in the source) -/
 def insertPronsTags (db : Db) (l : Lexicon) (c : Ctx) : R Db := do
-  let mut db := db
-  -- pronunciations of all entries first, then tags of all entries (two passes in the source)
-  for e in l.entries do
-    let lid := c.lid e.id
-    if let some lem := e.lemma then
-      for p in lem.prons do
-        let fr ← need "NOT NULL pronunciations.form_rowid" (formRow db e.id lid none (some 0))
-        let row : RPron := {form := fr, value := p.text, variety := p.variety, notat := p.notat, phonemic := boolOr p.phonemic true, audio := p.audio}
-        db := { db with prons := db.prons ++ [row] }
-    for (f, i) in e.forms.zipIdx do
-      let rank : Option Nat := if f.external then none else some (i + 1)
-      for p in f.prons do
-        let fr ← need "NOT NULL pronunciations.form_rowid" (formRow db e.id lid f.id rank)
-        let row : RPron := {form := fr, value := p.text, variety := p.variety, notat := p.notat, phonemic := boolOr p.phonemic true, audio := p.audio}
-        db := { db with prons := db.prons ++ [row] }
-  for e in l.entries do
-    let lid := c.lid e.id
-    if let some lem := e.lemma then
-      for t in lem.tags do
-        let fr ← need "NOT NULL tags.form_rowid" (formRow db e.id lid none (some 0))
-        let row : RTag := {form := fr, tag := t.text, category := t.category}
-        db := { db with tags := db.tags ++ [row] }
-    for (f, i) in e.forms.zipIdx do
-      let rank : Option Nat := if f.external then none else some (i + 1)
-      for t in f.tags do
-        let fr ← need "NOT NULL tags.form_rowid" (formRow db e.id lid f.id rank)
-        let row : RTag := {form := fr, tag := t.text, category := t.category}
-        db := { db with tags := db.tags ++ [row] }
-  return db
+  let db1 ← l.entries.foldlM (fun db e =>
+    (formLikes e).foldlM (fun db fl => fl.2.2.1.foldlM (pronStep c e fl.1 fl.2.1) db) db) db
+  l.entries.foldlM (fun db e =>
+    (formLikes e).foldlM (fun db fl => fl.2.2.2.foldlM (tagStep c e fl.1 fl.2.1) db) db) db1
 
 /-- `ssrank`: index in `Synset@members`; a later synset listing the same sense wins -/
 def memberRank (l : Lexicon) (defaultRank : Nat) (sid : String) : Nat :=
@@ -252,82 +244,89 @@ def insertSenses (db : Db) (l : Lexicon) (c : Ctx) (defaultRank : Nat) : R Db :=
   let db2 ← l.entries.foldlM (fun db e => (localSenses e).foldlM (adjStep c) db) db1
   l.entries.foldlM (fun db e => e.senses.foldlM (fun db s => s.counts.foldlM (countStep c s) db) db) db2
 
+/-- one row of `syntactic_behaviours` -/
+def sbStep (c : Ctx) (db : Db) (sb : Sb) : R Db := do
+  let id := match sb.id with | some i => if i == "" then none else some i | none => none
+  if id.isSome && db.sbs.any (fun r => r.lex == c.lexid && r.id == id) then throw "UNIQUE syntactic_behaviours(lexicon_rowid, id)"
+  if db.sbs.any (fun r => r.lex == c.lexid && r.frame == sb.frame) then throw "UNIQUE syntactic_behaviours(lexicon_rowid, frame)"
+  let row : RSb := {rowid := nextId (db.sbs.map (·.rowid)), id := id, lex := c.lexid, frame := sb.frame}
+  return { db with sbs := db.sbs ++ [row] }
+
+/-- one row of `syntactic_behaviour_senses` -/
+def sbSenseStep (c : Ctx) (sb : Sb) (db : Db) (sid : String) : R Db := do
+  let sbr ← need "NOT NULL syntactic_behaviour_senses.syntactic_behaviour_rowid"
+    ((db.sbs.find? (fun r => r.lex == c.lexid && r.frame == sb.frame)).map (·.rowid))
+  let sr ← need "NOT NULL syntactic_behaviour_senses.sense_rowid" (senseRow db sid (c.lid sid))
+  let row : RSbSense := {sb := sbr, sense := sr}
+  return { db with sbsenses := db.sbsenses ++ [row] }
+
 /-- `_insert_syntactic_behaviours` -/
 def insertSbs (db : Db) (sbs : List Sb) (c : Ctx) : R Db := do
-  let mut db := db
-  for sb in sbs do
-    let id := match sb.id with | some i => if i == "" then none else some i | none => none
-    if id.isSome && db.sbs.any (fun r => r.lex == c.lexid && r.id == id) then throw "UNIQUE syntactic_behaviours(lexicon_rowid, id)"
-    if db.sbs.any (fun r => r.lex == c.lexid && r.frame == sb.frame) then throw "UNIQUE syntactic_behaviours(lexicon_rowid, frame)"
-    let row : RSb := {rowid := nextId (db.sbs.map (·.rowid)), id := id, lex := c.lexid, frame := sb.frame}
-    db := { db with sbs := db.sbs ++ [row] }
-  for sb in sbs do
-    for sid in sb.senses do
-      let sbr ← need "NOT NULL syntactic_behaviour_senses.syntactic_behaviour_rowid"
-        ((db.sbs.find? (fun r => r.lex == c.lexid && r.frame == sb.frame)).map (·.rowid))
-      let sr ← need "NOT NULL syntactic_behaviour_senses.sense_rowid" (senseRow db sid (c.lid sid))
-      let row : RSbSense := {sb := sbr, sense := sr}
-      db := { db with sbsenses := db.sbsenses ++ [row] }
-  return db
+  let db1 ← sbs.foldlM (sbStep c) db
+  sbs.foldlM (fun db sb => sb.senses.foldlM (sbSenseStep c sb) db) db1
 
-/-- `_insert_synset_relations` and `_insert_sense_relations` -/
+def synRelStep (c : Ctx) (ss : Synset) (db : Db) (r : Relation) : R Db := do
+  let src ← need "NOT NULL synset_relations.source_rowid" (synsetRow db ss.id (c.lid ss.id))
+  let tgt ← need "NOT NULL synset_relations.target_rowid" (synsetRow db r.target (c.lid r.target))
+  let ty ← need "NOT NULL synset_relations.type_rowid" (lookupId db.reltypes r.relType)
+  let row : RRel := {rowid := nextId (db.synrels.map (·.rowid)), lex := c.lexid, source := src, target := tgt, type := ty, md := r.md}
+  return { db with synrels := db.synrels ++ [row] }
+
+def senseRelStep (c : Ctx) (db : Db) (p : String × Relation) : R Db := do
+  let src ← need "NOT NULL sense_relations.source_rowid" (senseRow db p.1 (c.lid p.1))
+  let tgt ← need "NOT NULL sense_relations.target_rowid" (senseRow db p.2.target (c.lid p.2.target))
+  let ty ← need "NOT NULL sense_relations.type_rowid" (lookupId db.reltypes p.2.relType)
+  let row : RRel := {rowid := nextId (db.senserels.map (·.rowid)), lex := c.lexid, source := src, target := tgt, type := ty, md := p.2.md}
+  return { db with senserels := db.senserels ++ [row] }
+
+def senseSynRelStep (c : Ctx) (db : Db) (p : String × Relation) : R Db := do
+  let src ← need "NOT NULL sense_synset_relations.source_rowid" (senseRow db p.1 (c.lid p.1))
+  let tgt ← need "NOT NULL sense_synset_relations.target_rowid" (synsetRow db p.2.target (c.lid p.2.target))
+  let ty ← need "NOT NULL sense_synset_relations.type_rowid" (lookupId db.reltypes p.2.relType)
+  let row : RRel := {rowid := nextId (db.sensesynrels.map (·.rowid)), lex := c.lexid, source := src, target := tgt, type := ty, md := p.2.md}
+  return { db with sensesynrels := db.sensesynrels ++ [row] }
+
+/-- the relations of all senses of the document, as (source sense id, relation) -/
+def allSenseRels (l : Lexicon) : List (String × Relation) :=
+  l.entries.flatMap (fun e => e.senses.flatMap (fun s => s.relations.map (fun r => (s.id, r))))
+
+/-- `_insert_synset_relations` and `_insert_sense_relations`; sense relations are split by the kind of
+their target, decided on the document's ids; a target that is neither raises `wn.Error` -/
 def insertRelations (db : Db) (l : Lexicon) (c : Ctx) : R Db := do
-  let mut db := db
-  for ss in l.synsets do
-    for r in ss.relations do
-      let src ← need "NOT NULL synset_relations.source_rowid" (synsetRow db ss.id (c.lid ss.id))
-      let tgt ← need "NOT NULL synset_relations.target_rowid" (synsetRow db r.target (c.lid r.target))
-      let ty ← need "NOT NULL synset_relations.type_rowid" (lookupId db.reltypes r.relType)
-      let row : RRel := {rowid := nextId (db.synrels.map (·.rowid)), lex := c.lexid, source := src, target := tgt, type := ty, md := r.md}
-      db := { db with synrels := db.synrels ++ [row] }
-  -- sense relations are split by the kind of their target, decided on the document's ids
+  let db1 ← l.synsets.foldlM (fun db ss => ss.relations.foldlM (synRelStep c ss) db) db
   let synsetIds := l.synsets.map (·.id)
   let senseIds := l.entries.flatMap (fun e => e.senses.map (·.id))
-  let mut ss : List (String × Relation) := []
-  let mut sss : List (String × Relation) := []
-  for e in l.entries do
-    for s in e.senses do
-      for r in s.relations do
-        if senseIds.contains r.target then ss := ss ++ [(s.id, r)]
-        else if synsetIds.contains r.target then sss := sss ++ [(s.id, r)]
-        else throw s!"wn.Error: relation target is not a known sense or synset: {r.target}"
-  for (sid, r) in ss do
-    let src ← need "NOT NULL sense_relations.source_rowid" (senseRow db sid (c.lid sid))
-    let tgt ← need "NOT NULL sense_relations.target_rowid" (senseRow db r.target (c.lid r.target))
-    let ty ← need "NOT NULL sense_relations.type_rowid" (lookupId db.reltypes r.relType)
-    let row : RRel := {rowid := nextId (db.senserels.map (·.rowid)), lex := c.lexid, source := src, target := tgt, type := ty, md := r.md}
-    db := { db with senserels := db.senserels ++ [row] }
-  for (sid, r) in sss do
-    let src ← need "NOT NULL sense_synset_relations.source_rowid" (senseRow db sid (c.lid sid))
-    let tgt ← need "NOT NULL sense_synset_relations.target_rowid" (synsetRow db r.target (c.lid r.target))
-    let ty ← need "NOT NULL sense_synset_relations.type_rowid" (lookupId db.reltypes r.relType)
-    let row : RRel := {rowid := nextId (db.sensesynrels.map (·.rowid)), lex := c.lexid, source := src, target := tgt, type := ty, md := r.md}
-    db := { db with sensesynrels := db.sensesynrels ++ [row] }
-  return db
+  match (allSenseRels l).find? (fun p => !senseIds.contains p.2.target && !synsetIds.contains p.2.target) with
+  | some p => throw s!"wn.Error: relation target is not a known sense or synset: {p.2.target}"
+  | none =>
+    let ss := (allSenseRels l).filter (fun p => senseIds.contains p.2.target)
+    let sss := (allSenseRels l).filter (fun p => !senseIds.contains p.2.target && synsetIds.contains p.2.target)
+    let db2 ← ss.foldlM (senseRelStep c) db1
+    sss.foldlM (senseSynRelStep c) db2
+
+def defStep (c : Ctx) (ss : Synset) (db : Db) (d : Definition) : R Db := do
+  let sr ← need "NOT NULL definitions.synset_rowid" (synsetRow db ss.id (c.lid ss.id))
+  let sense := match d.sourceSense with
+    | some s => senseRow db s (c.lid s)
+    | none => none
+  let row : RDef := {rowid := nextId (db.defs.map (·.rowid)), lex := c.lexid, synset := sr, text := d.text, language := d.language, sense := sense, md := d.md}
+  return { db with defs := db.defs ++ [row] }
+
+def senseExampleStep (c : Ctx) (s : Sense) (db : Db) (x : Example) : R Db := do
+  let sr ← need "NOT NULL sense_examples.sense_rowid" (senseRow db s.id (c.lid s.id))
+  let row : RExample := {rowid := nextId (db.sensexs.map (·.rowid)), lex := c.lexid, owner := sr, text := x.text, language := x.language, md := x.md}
+  return { db with sensexs := db.sensexs ++ [row] }
+
+def synsetExampleStep (c : Ctx) (ss : Synset) (db : Db) (x : Example) : R Db := do
+  let sr ← need "NOT NULL synset_examples.synset_rowid" (synsetRow db ss.id (c.lid ss.id))
+  let row : RExample := {rowid := nextId (db.synexs.map (·.rowid)), lex := c.lexid, owner := sr, text := x.text, language := x.language, md := x.md}
+  return { db with synexs := db.synexs ++ [row] }
 
 /-- `_insert_synset_definitions` and the two `_insert_examples` calls -/
 def insertDefsExamples (db : Db) (l : Lexicon) (c : Ctx) : R Db := do
-  let mut db := db
-  for ss in l.synsets do
-    for d in ss.definitions do
-      let sr ← need "NOT NULL definitions.synset_rowid" (synsetRow db ss.id (c.lid ss.id))
-      let sense := match d.sourceSense with
-        | some s => senseRow db s (c.lid s)
-        | none => none
-      let row : RDef := {rowid := nextId (db.defs.map (·.rowid)), lex := c.lexid, synset := sr, text := d.text, language := d.language, sense := sense, md := d.md}
-      db := { db with defs := db.defs ++ [row] }
-  for e in l.entries do
-    for s in e.senses do
-      for x in s.examples do
-        let sr ← need "NOT NULL sense_examples.sense_rowid" (senseRow db s.id (c.lid s.id))
-        let row : RExample := {rowid := nextId (db.sensexs.map (·.rowid)), lex := c.lexid, owner := sr, text := x.text, language := x.language, md := x.md}
-        db := { db with sensexs := db.sensexs ++ [row] }
-  for ss in l.synsets do
-    for x in ss.examples do
-      let sr ← need "NOT NULL synset_examples.synset_rowid" (synsetRow db ss.id (c.lid ss.id))
-      let row : RExample := {rowid := nextId (db.synexs.map (·.rowid)), lex := c.lexid, owner := sr, text := x.text, language := x.language, md := x.md}
-      db := { db with synexs := db.synexs ++ [row] }
-  return db
+  let db1 ← l.synsets.foldlM (fun db ss => ss.definitions.foldlM (defStep c ss) db) db
+  let db2 ← l.entries.foldlM (fun db e => e.senses.foldlM (fun db s => s.examples.foldlM (senseExampleStep c s) db) db) db1
+  l.synsets.foldlM (fun db ss => ss.examples.foldlM (synsetExampleStep c ss) db) db2
 
 /-- one lexicon of the resource (the body of the loop in `_add_lexical_resource`) -/
 def addLexicon (norm : String → String) (defaultRank : Nat) (db : Db) (l : Lexicon) : R Db := do
